@@ -538,3 +538,8 @@ mutant("c06-free-function-rewinds-the-front-cursor", ["C03"], [("src/iter.rs", "
 mutant_on_patch("m-A06p1-nth-back-max-with-plain-sub", "A06.p1", ["C06"], [("src/iter.rs", "self.index_back.saturating_sub(n)", "(self.index_back - n)")], "C06.N")
 mutant_on_patch("m-A08p3-map-fast-path-under-the-wrong-condition", "A08.p3", ["C03", "C04"], [("src/lib.rs", "            if mem::needs_drop::<T>() {\n                let mut source = ArrayConsumer::new(self);\n\n                let (array_iter, position) = source.iter_position();\n\n                FromIterator::from_iter(array_iter.map(|src| {", "            if !mem::needs_drop::<T>() {\n                let mut source = ArrayConsumer::new(self);\n\n                let (array_iter, position) = source.iter_position();\n\n                FromIterator::from_iter(array_iter.map(|src| {")], "")
 mutant_on_patch("m-A04p3-zip-consumers-without-position-on-the-right", "A04.p3", ["C04"], [("src/lib.rs", "                *right_position = *left_position;\n", "")], "")
+
+# an owner constructed anywhere else than in its judged constructor, with cursors that do not describe its storage
+mutant("c06-second-constructor-starts-at-one", ["C03", "C06"], [("src/iter.rs", "impl<T, N: ArrayLength> IntoIterator for GenericArray<T, N> {", "impl<T, N: ArrayLength> GenericArray<T, N> {\n    /// By-value iterator over all elements but the first\n    #[inline]\n    pub fn into_tail_iter(self) -> GenericArrayIter<T, N> {\n        GenericArrayIter {\n            array: ManuallyDrop::new(self),\n            index: 1,\n            index_back: N::USIZE,\n        }\n    }\n}\n\nimpl<T, N: ArrayLength> IntoIterator for GenericArray<T, N> {")], "")
+mutant("c04-builder-constructed-half-full", ["C03", "C06"], [("src/internal.rs", "impl<T, N: ArrayLength> ArrayBuilder<T, N> {\n    /// Begin building an array\n", "impl<T, N: ArrayLength> ArrayBuilder<T, N> {\n    /// A builder that takes over storage whose first half is said to be written already\n    #[inline(always)]\n    pub const fn resume(array: GenericArray<MaybeUninit<T>, N>) -> ArrayBuilder<T, N> {\n        ArrayBuilder {\n            array,\n            position: N::USIZE / 2,\n        }\n    }\n\n    /// Begin building an array\n")], "")
+benign("c04-unsafe-builder-constructor-with-a-caller-contract", ["C03", "C04", "C06"], [("src/internal.rs", "impl<T, N: ArrayLength> ArrayBuilder<T, N> {\n    /// Begin building an array\n", "impl<T, N: ArrayLength> ArrayBuilder<T, N> {\n    /// A builder that takes over storage whose first `written` slots the caller has initialised\n    ///\n    /// # Safety\n    /// The first `written` elements of `array` must be initialised and `written <= N`\n    #[inline(always)]\n    pub const unsafe fn resume(array: GenericArray<MaybeUninit<T>, N>, written: usize) -> ArrayBuilder<T, N> {\n        ArrayBuilder {\n            array,\n            position: written,\n        }\n    }\n\n    /// Begin building an array\n")])
